@@ -25,7 +25,7 @@ ASSUMPTIONS = ['pysam BAM writing/reading is the storage; its own refusal of nam
                'expected field values come from the raw reads through the hand-written layout table and the independent 52-letter code']
 MIN_NONTRIVIAL = {'quick': 300, 'thorough': 30000}
 REQUIRED_MONITORS = ['totality:single_chars', 'totality:pairs', 'roundtrip:reads_decoded', 'roundtrip:fields_compared',
-                     'length:refused_loudly', 'length:stored_exactly']
+                     'length:refused_loudly', 'length:stored_exactly', 'history:fitting_then_overlong_in_one_library']
 SHARD_TIMEOUT = {'quick': 600, 'thorough': 3600}
 PHRED_TAGS = {'QX', 'QT', 'RQ', 'BZ', 'QM', 'lq', 'aQ', 'AQ', 'E2', 'EQ', 'eq', 'is', 'H1', 'H3'}
 
@@ -105,8 +105,9 @@ def roundtrip(case, acc):
         case_id = 40
         rid = 0
         results = []
-        for li, (lib, n) in enumerate(libs):
-            res = run_library(acc, d, dmx, strategy, name, wl, iwl, r, lib, n, single, case_id, rid, case)
+        for li, entry in enumerate(libs):
+            lib, n = entry[:2]
+            res = run_library(acc, d, dmx, strategy, name, wl, iwl, r, lib, n, single, case_id, rid, case, ids=entry[2] if len(entry) > 2 else None)
             rid += n
             results.append(res)
             if case['kind'] == 'length' and li == 0 and res and res['max_header']:
@@ -115,12 +116,19 @@ def roundtrip(case, acc):
                     ln = target - base
                     if ln >= 1:
                         libs.append((libname(r, ln), 3))
-        acc.sample = {'strategy': name, 'kind': case['kind'], 'libraries': [(l, n) for l, n in libs][:6],
+                # history inside one library: reads whose header fits come first, then reads of the same library whose variable-width
+                # fields (cluster coordinates) push the header over the limit, then fitting ones again
+                ln = 252 - base
+                if ln >= 1:
+                    big = 10 ** 7
+                    libs.append((libname(r, ln), 9, [1, 2, 3, big + 1, big + 2, big + 3, 4, 5, big + 4]))
+                    acc.count('history:fitting_then_overlong_in_one_library')
+        acc.sample = {'strategy': name, 'kind': case['kind'], 'libraries': [tuple(e[:2]) for e in libs][:6],
                       'decoded_example': next((x['example'] for x in results if x and x.get('example')), None)}
     return acc
 
 
-def run_library(acc, d, dmx, strategy, name, wl, iwl, r, lib, n, single, case_id, rid0, case):
+def run_library(acc, d, dmx, strategy, name, wl, iwl, r, lib, n, single, case_id, rid0, case, ids=None):
     import pysam
     from singlecellmultiomics.fastqProcessing.fastqHandle import FastqHandle
     from singlecellmultiomics.universalBamTagger.universalBamTagger import QueryNameFlagger
@@ -132,7 +140,7 @@ def run_library(acc, d, dmx, strategy, name, wl, iwl, r, lib, n, single, case_id
         if hk == 'illumina_numeric':
             index_seq = str(r.randint(1, 96))
         base_kind = hk if hk in ('scmo', '3dec') else 'illumina'
-        p = fq.make_pair(r, lay, wl.get(lay['alias'], []), 'good', rid0 + i + 1, case_id, hdr_kind=base_kind, index_seq=index_seq,
+        p = fq.make_pair(r, lay, wl.get(lay['alias'], []), 'good', ids[i] if ids else rid0 + i + 1, case_id, hdr_kind=base_kind, index_seq=index_seq,
                          qmax=93, p_n=0.0, single_end=single, needs=lay.get('needs'),
                          insert_len=[r.randint(20, 60), r.randint(20, 60)])
         p['lay'], p['hk'] = lay, hk
@@ -168,6 +176,9 @@ def run_library(acc, d, dmx, strategy, name, wl, iwl, r, lib, n, single, case_id
             for mi in range(len(mates)):
                 h, s, _, q = disk[mi][idx]
                 max_header = max(max_header, len(h) - 1)
+                if len(h) - 1 > 255:
+                    acc.violate('overlong-header-written-by-demultiplexer', f'{name} lib of {len(lib)} chars: a header of {len(h) - 1} characters was written '
+                                                                            f'instead of being refused (record {idx} of the library)', {'header': h, 'library': lib})
                 a = pysam.AlignedSegment(header)
                 try:
                     a.query_name = h[1:]
